@@ -1917,7 +1917,7 @@ def _vec_index(pe, st, args, t):
 
 def _int_helper(name, fn):
     names = []
-    for ty in ("usize", "u8", "u16", "u32", "u64", "isize", "i32", "i64"):
+    for ty in ("usize", "u8", "u16", "u32", "u64", "u128", "isize", "i8", "i16", "i32", "i64", "i128"):
         names.append("core::num::<impl %s>::%s" % (ty, name))
     @pmodel(*names)
     def f(pe, st, args, t):
@@ -1960,9 +1960,49 @@ _int_helper("max", lambda ty, x, y, lo, hi: mk_int(ty, max(x, y)))
 _int_helper("next_multiple_of", lambda ty, x, y, lo, hi: (mk_int(ty, -(-x // y) * y) if lo <= -(-x // y) * y <= hi else TOP) if y > 0 and x >= 0 else TOP)
 
 
+def _shift_helper(name):
+    names = []
+    for ty in ("usize", "u8", "u16", "u32", "u64", "u128", "isize", "i8", "i16", "i32", "i64", "i128"):
+        names.append("core::num::<impl %s>::%s" % (ty, name))
+
+    @pmodel(*names)
+    def f(pe, st, args, t):
+        a, b = args[0], args[1]
+        if a == TOP or b == TOP or a[0] != "int" or b[0] != "int":
+            return TOP
+        from .fold import INT_BITS as IB, ty_range
+        ty = a[1]
+        n = IB.get(ty)
+        if n is None:
+            return TOP
+        lo, hi = ty_range(ty)
+        left = name.endswith("shl")
+        amt = b[2]
+        over = amt >= n
+        if name.startswith("wrapping") or name.startswith("overflowing"):
+            amt %= n  # the shift amount is masked to the width of the type
+        elif over:
+            return NONE  # checked_*
+        x = a[2] & ((1 << n) - 1)
+        r = ((x << amt) & ((1 << n) - 1)) if left else ((x >> amt) if lo == 0 else ((a[2] >> amt) & ((1 << n) - 1)))
+        if lo < 0 and r >= 1 << (n - 1):
+            r -= 1 << n
+        v = mk_int(ty, r)
+        if name.startswith("checked"):
+            return some(v)
+        if name.startswith("overflowing"):
+            return ("tuple", (v, mk_bool(over)))
+        return v
+    return f
+
+
+for _nm in ("wrapping_shl", "wrapping_shr", "checked_shl", "checked_shr", "overflowing_shl", "overflowing_shr"):
+    _shift_helper(_nm)
+
+
 def _int_unary(name, fn):
     names = []
-    for ty in ("usize", "u8", "u16", "u32", "u64", "isize", "i32", "i64"):
+    for ty in ("usize", "u8", "u16", "u32", "u64", "u128", "isize", "i8", "i16", "i32", "i64", "i128"):
         names.append("core::num::<impl %s>::%s" % (ty, name))
 
     @pmodel(*names)
